@@ -348,7 +348,7 @@ Definition val_math_env_gen (fx : bool) : list string -> list string -> xml -> l
   val_math_env_gen2 qualifier_fix_committed fx.
 
 (** flipped to true by the orchestrator when fixes/C01-mathml-arity.diff is committed to /repo *)
-Definition arity_fix_committed : bool := false.
+Definition arity_fix_committed : bool := true.
 Definition val_math_env : list string -> list string -> xml -> list rule := val_math_env_gen arity_fix_committed.
 
 (** the environment used by the drivers and by the closed statements: variables t x y z, units "dimensionless" *)
